@@ -67,6 +67,11 @@ def _values_set():
         if r < 0.5 and a.dtype.kind == "f":
             return {"a": a_id, "how": "fillna", "value": rng.choice([0, -9.0])}
         dt = rng.choice(["f8", "i8"])
+        if a.ndim and rng.random() < 0.35:
+            # a right-hand side that relies on broadcasting: a scalar or a single row, possibly of another kind
+            if rng.random() < 0.5:
+                return {"a": a_id, "how": "values_bcast", "new": rng.choice([3, 2.5, float("nan"), "s"])}
+            return {"a": a_id, "how": "values_bcast", "new": V.gen_values(rng, [a.shape[-1]], dt, 0.2)}
         return {"a": a_id, "how": "values", "dtype": dt, "new": V.gen_values(rng, list(a.shape), dt, 0.1)}
 
     def run(w, s):
@@ -75,6 +80,8 @@ def _values_set():
             a.fill(s["value"])
         elif s["how"] == "fillna":
             a.fillna(s["value"], inplace=True)
+        elif s["how"] == "values_bcast":
+            a.values = s["new"]
         else:
             new = np.array(s["new"], dtype=V.NP_DTYPE[s["dtype"]]).reshape(a.shape)
             a.values = new
